@@ -53,6 +53,28 @@ def atomic_ops(ctx):
     return out
 
 
+def counter_symmetry(ctx, rep, ra, rc, ops=None, labels=None):
+    """the stream / topic / partition counters move together and what a segment adds is what it later subtracts"""
+    ops = atomic_ops(ctx) if ops is None else ops
+    for label, members in TRIPLES:
+        if labels is not None and label not in labels:
+            continue
+        fns = sorted({fn for fn, f, op, arg, c, b in ops if f in members})
+        for fn in fns:
+            per = {m: sorted((op, arg) for f2, f, op, arg, c, b in ops if f2 == fn and f == m) for m in members}
+            vals = list(per.values())
+            same = vals[0] == vals[1] == vals[2] and bool(vals[0])
+            site = [c for f2, f, op, arg, c, b in ops if f2 == fn and f in members][0]
+            rep.ob(ra, fn, label + ' triple', same, site.where(),
+                   '%s on all three' % vals[0] if same else 'the three %s counters diverge here: %s' % (label, {m.split('_')[-1]: v for m, v in per.items()}))
+            exp = EXPECTED_OPERANDS.get((fn, label))
+            if exp is None:
+                rep.ob(rc, fn, label + ' operand', False, site.where(), 'a %s counter is changed in a function without a confirmed operand (%s)' % (label, vals[0]))
+            else:
+                ok = same and vals[0] == [exp]
+                rep.ob(rc, fn, label + ' operand', ok, site.where(), '%s(%s)' % exp if ok else 'counter changed by %s, confirmed operand is %s(%s)' % (vals[0], exp[0], exp[1]))
+
+
 def run(ctx, rep):
     from props import accessors as _acc
     _acc.check(ctx, rep, 'C16', 'R16.acc')
@@ -60,21 +82,7 @@ def run(ctx, rep):
     rep.rule('R16.a', 'the counter triples move together: same operation, same operand on stream, topic and partition counter in every function that touches one', floor=7, analysis='A6')
     rep.rule('R16.b', 'the counters have one owner: modified only inside Segment / Partition / partition load', floor=26, analysis='A1')
     rep.rule('R16.c', 'what a segment adds is what it later subtracts: operands confirmed per site', floor=7, analysis='A9')
-    for label, members in TRIPLES:
-        fns = sorted({fn for fn, f, op, arg, c, b in ops if f in members})
-        for fn in fns:
-            per = {m: sorted((op, arg) for f2, f, op, arg, c, b in ops if f2 == fn and f == m) for m in members}
-            vals = list(per.values())
-            same = vals[0] == vals[1] == vals[2] and bool(vals[0])
-            site = [c for f2, f, op, arg, c, b in ops if f2 == fn and f in members][0]
-            rep.ob('R16.a', fn, label + ' triple', same, site.where(),
-                   '%s on all three' % vals[0] if same else 'the three %s counters diverge here: %s' % (label, {m.split('_')[-1]: v for m, v in per.items()}))
-            exp = EXPECTED_OPERANDS.get((fn, label))
-            if exp is None:
-                rep.ob('R16.c', fn, label + ' operand', False, site.where(), 'a %s counter is changed in a function without a confirmed operand (%s)' % (label, vals[0]))
-            else:
-                ok = same and vals[0] == [exp]
-                rep.ob('R16.c', fn, label + ' operand', ok, site.where(), '%s(%s)' % exp if ok else 'counter changed by %s, confirmed operand is %s(%s)' % (vals[0], exp[0], exp[1]))
+    counter_symmetry(ctx, rep, 'R16.a', 'R16.c', ops)
     for fn, f, op, arg, c, b in ops:
         if f == 'segments_count_of_parent_stream':
             ok = fn.startswith(P + '::') or fn == sf.LOAD
@@ -193,3 +201,12 @@ def run(ctx, rep):
     rep.rule('R16.h', 'the shared size / message / segment counters handed to Topic::create, Partition::create and Segment::create reach the parameter of their own kind and level, at run time and at load (a counter passed in a sibling slot adds every loaded segment to the wrong level or twice to one level)', floor=40, analysis='A13')
     import idkinds as idk_
     idk_.check_counter_kinds(ctx, rep, 'R16.h', ['server::streaming::'])
+
+    # ------------------------------------------------------------ R16.i every counter starts at zero and every parent counter sits in its own slot
+    rep.rule('R16.i', 'constructors: own counters start at 0 and the shared counters of the parents are stored in the field of their own kind and level (a loaded entity keeps these, the loader only adds to them)', floor=24, analysis='A9')
+    from props import storage_forms as sf_
+    CNT = ('size_bytes', 'messages_count', 'segments_count', 'size_of_parent_stream', 'size_of_parent_topic', 'size_of_parent_partition',
+           'messages_count_of_parent_stream', 'messages_count_of_parent_topic', 'messages_count_of_parent_partition', 'segments_count_of_parent_stream',
+           'log_size_bytes', 'index_size_bytes')
+    sf_.check_constructors(ctx, rep, 'R16.i', {k: CNT for k in ('Segment', 'Partition', 'Topic', 'Stream')})
+
